@@ -28,7 +28,7 @@ TECHNIQUE = ("fault enumeration at runtime: failpoint (and SIGKILL in the thorou
              "builder's recipe; header version, collect_tasks, ReadWrite open and sha256 observed after each run")
 RULE = ("Case = one (old-format file, interruption point k) pair, k = 0 (uninterrupted) .. n (every write-open of the upgrade); all k of a "
         "file are enumerated.  Files: header version in {1.0.0, 1.1.0, 1.1.1, 1.2.0} x file id present/absent x 0-3 alias range dimensions "
-        "(with/without unit and label) x 0-4 sections (nested) x 0-6 properties each over {int, float, text, bool} x 0-5 values x "
+        "(with/without unit and label) x 0-4 sections (nested) x 0-6 properties each over {int (stored as int64/32/16, uint8/32/64, values at the ends of the range), float, text, bool} x 0-5 values x "
         "uncertainty {none, constant, varying, varying by 1e-9 absolute / 3e-6 relative} x reference / filename / encoder / checksum {unset, partly set}; blocks with arrays of "
         "several element types, sampled / set / range descriptors, groups, tags.  Distinct by (version, id present, number of alias "
         "dimensions, property type multiset, extras pattern, step kind at k); trivial = none.")
